@@ -1357,7 +1357,7 @@ def shortest_int(data: np.ndarray, percent: float=50) -> tuple[float, float]:
             The shortest interval containing 50% of the samples in 'data'.
         """
         diff_lag = (
-            lambda data, lag: data[lag:] - data[:-lag]
+            lambda data, lag: data[lag:] - data[:len(data) - lag]
         )  # Difference between two elements of an array separated by a distance 'lag'
 
         data = np.sort(data)
